@@ -350,12 +350,12 @@ theorem finish_insert {U : Tx → Prop} (hw : WF U) {mp1 : Pool} {base : List Tx
     (hfresh : ∀ e ∈ base, e.id ≠ t.id) (hnoc1 : ∀ e ∈ base, t.id ∉ e.conflicts)
     (hnoc2 : ∀ e ∈ base, e.id ∉ t.conflicts) (horc : ∀ i, t.oracle = some i → ∀ e ∈ base, e.oracle ≠ some i)
     (fe : Fee) (hfe : mp1.fees (payerOf t) = some fe) (hle : fe.feeSum + t.fee ≤ fe.balance) :
-    Inv U (tryAddSendersFee (register { mp1 with txs := shiftInsert mp1.txs n t } t) t feer false).1 ∧
-    (tryAddSendersFee (register { mp1 with txs := shiftInsert mp1.txs n t } t) t feer false).1.txs
+    Inv U (tryAddSendersFee (register { mp1 with txs := shiftInsert mp1.txs n t } t feer.height) t feer false).1 ∧
+    (tryAddSendersFee (register { mp1 with txs := shiftInsert mp1.txs n t } t feer.height) t feer false).1.txs
       = base.take n ++ [t] ++ base.drop n ∧
-    (tryAddSendersFee (register { mp1 with txs := shiftInsert mp1.txs n t } t) t feer false).1.capacity = mp1.capacity ∧
-    (tryAddSendersFee (register { mp1 with txs := shiftInsert mp1.txs n t } t) t feer false).1.feePerByte = mp1.feePerByte := by
-  have hreg : (register { mp1 with txs := shiftInsert mp1.txs n t } t).fees (payerOf t) = some fe := hfe
+    (tryAddSendersFee (register { mp1 with txs := shiftInsert mp1.txs n t } t feer.height) t feer false).1.capacity = mp1.capacity ∧
+    (tryAddSendersFee (register { mp1 with txs := shiftInsert mp1.txs n t } t feer.height) t feer false).1.feePerByte = mp1.feePerByte := by
+  have hreg : (register { mp1 with txs := shiftInsert mp1.txs n t } t feer.height).fees (payerOf t) = some fe := hfe
   rw [tryAddSendersFee_nocheck _ t feer fe hreg]
   have hadd : addW fe.feeSum t.fee = fe.feeSum + t.fee := by
     apply addW_eq
